@@ -40,6 +40,9 @@ impl<'a> Ctx<'a> {
     fn local_of(&mut self, c: u8) -> u32 {
         let mut cands: Vec<u32> = self.params.iter().enumerate().filter(|(_, t)| **t == c).map(|(i, _)| i as u32).collect();
         cands.push(self.nparams as u32 + c as u32);
+        // three more declared locals after the seven typed ones: i32, i64, i32 (several used locals of the SAME type per function)
+        if c == 0 { cands.push(self.nparams as u32 + 7); cands.push(self.nparams as u32 + 9); }
+        if c == 1 { cands.push(self.nparams as u32 + 8); }
         *self.r.pick(&cands)
     }
     fn push_val(&mut self, out: &mut Vec<I<'static>>, c: u8) {
@@ -234,7 +237,8 @@ pub fn module(r: &mut Rng, tab: &Table, cfg: &GenCfg) -> (Vec<u8>, GInfo) {
         let mut cx = Ctx { r, tab, cfg, info: &mut info, types: &types, func_types: &func_types, nparams: ps.len(), params: ps.clone(), results: rs.clone(), by_first_param: by_first_param.clone(), loops: vec![], cur: fi };
         let mut labels = vec![rs.clone()];
         let body = cx.seq(&mut labels, vec![], &rs, 0);
-        let mut wf = we::Function::new(env::local_decls());
+        let mut decls = env::local_decls(); decls.push((1, we::ValType::I32)); decls.push((1, we::ValType::I64)); decls.push((1, we::ValType::I32));
+        let mut wf = we::Function::new(decls);
         for ins in &body { wf.instruction(ins); }
         wf.instruction(&I::End);
         c.function(&wf);
